@@ -39,6 +39,9 @@ def real_fun(name, orig=None, numpy_like=False):
         if not isinstance(x, Sym):
             if isinstance(x, Unknown):
                 return Unknown(name)
+            from .qmodel import NPCall
+            if numpy_like and isinstance(x, NPCall):
+                return NPCall(name, (x,) + tuple(rest), kw)      # element-wise function of an uninterpreted array: uninterpreted
             if contains_sym(x):
                 import numpy as _np
                 if isinstance(x, (list, tuple)) or (isinstance(x, _np.ndarray) and x.ndim == 1):
@@ -303,8 +306,9 @@ def b_sum(interp, it, start=0):
 def b_any(interp, it):
     if isinstance(it, SymSeq) and not it.concrete_len():
         j = z3.Int(fresh_name("j"))
-        el = it.at(Sym(j))
-        b = interp.bool_value(el)
+        with cur().bound(z3.And(j >= 0, j < to_z3(it.sym_len()))):
+            el = it.at(Sym(j))
+            b = interp.bool_value(el)
         return wrap(z3.Exists([j], z3.And(j >= 0, j < to_z3(it.sym_len()), to_z3(b))))
     for v in it:
         if interp.truth(v):
@@ -315,8 +319,9 @@ def b_any(interp, it):
 def b_all(interp, it):
     if isinstance(it, SymSeq) and not it.concrete_len():
         j = z3.Int(fresh_name("j"))
-        el = it.at(Sym(j))
-        b = interp.bool_value(el)
+        with cur().bound(z3.And(j >= 0, j < to_z3(it.sym_len()))):
+            el = it.at(Sym(j))
+            b = interp.bool_value(el)
         return wrap(z3.ForAll([j], z3.Implies(z3.And(j >= 0, j < to_z3(it.sym_len())), to_z3(b))))
     for v in it:
         if not interp.truth(v):
@@ -338,6 +343,21 @@ def b_range(interp, *args):
     return range(*args)
 
 
+class EngineIter(list):
+    """what the engine hands out where CPython hands out an iterator (zip, map, enumerate, filter, reversed, generators): a materialised list (the
+    engine itself walks through values to look for symbols, so iteration must not consume it) from which next() takes the first element, so that
+    `first = next(it)` followed by a loop over the rest behaves as it does on an iterator.  Not modelled: an iterator iterated a second time is
+    empty in CPython and is not here."""
+
+    def __next__(self):
+        if not len(self):
+            raise StopIteration
+        return list.pop(self, 0)
+
+    def __reversed__(self):
+        raise TypeError("'%s' object is not reversible" % "iterator")
+
+
 def b_zip(interp, *its, strict=False):
     if any(isinstance(x, SymSeq) and not x.concrete_len() for x in its):
         seqs = [to_seq(x) for x in its]
@@ -346,7 +366,7 @@ def b_zip(interp, *its, strict=False):
             l2 = s.sym_len()
             ln = S.ite(l2 < ln, l2, ln)
         return SymSeq(ln, lambda i: tuple(s.at(i) for s in seqs), "zip")
-    return list(zip(*[list(x) for x in its]))
+    return EngineIter(zip(*[list(x) for x in its]))
 
 
 def to_seq(x):
@@ -371,7 +391,7 @@ def b_enumerate(interp, it, start=0):
         it = it.keys()
     if isinstance(it, SymSeq) and not it.concrete_len():
         return SymSeq(it.sym_len(), lambda i: (i + start, it.at(i)), "enumerate")
-    return list(enumerate(list(it), start))
+    return EngineIter(enumerate(list(it), start))
 
 
 def b_list(interp, it=()):
@@ -434,13 +454,13 @@ def b_reversed(interp, it):
     if isinstance(it, SymSeq) and not it.concrete_len():
         n = it.sym_len()
         return SymSeq(n, lambda i: it.at(n - 1 - i), "reversed")
-    return list(reversed(list(it)))
+    return EngineIter(reversed(list(it)))
 
 
 def b_map(interp, f, *its):
     if len(its) == 1 and isinstance(its[0], SymSeq) and not its[0].concrete_len():
         return its[0].map(lambda v: interp.call(f, (v,)))
-    return [interp.call(f, tuple(vs)) for vs in zip(*[list(x) for x in its])]
+    return EngineIter([interp.call(f, tuple(vs)) for vs in zip(*[list(x) for x in its])])
 
 
 def b_filter(interp, f, it):
@@ -449,7 +469,7 @@ def b_filter(interp, f, it):
         t = interp.call(f, (v,)) if f is not None else v
         if interp.truth(t):
             out.append(v)
-    return out
+    return EngineIter(out)
 
 
 def b_getattr(interp, obj, name, *default):
@@ -507,6 +527,39 @@ def b_warn(interp, message, category=None, stacklevel=1, source=None):
 
 def b_next(interp, it, *default):
     return next(it, *default)
+
+
+def b_iter(interp, it, *sentinel):
+    if isinstance(it, EngineIter) and not sentinel:
+        return it          # iter(iterator) is the iterator
+    return iter(it, *sentinel)
+
+
+def f_reduce(interp, f, it, *init):
+    """functools.reduce with + or * over a sequence of symbolic length is the fold sum / product (as for sum()); otherwise the native left fold"""
+    import operator
+    if isinstance(it, SymDict):
+        it = it.keys()
+    if isinstance(it, SymSeq) and not it.concrete_len():
+        if f not in (operator.mul, operator.add):
+            raise Unsupported("functools.reduce with %r over a sequence of symbolic length" % (f,))
+        from .spec import ssum, sprod
+        if not init and interp.truth(it.sym_len() == 0):
+            raise TypeError("reduce() of empty iterable with no initial value")
+        r = sprod(it) if f is operator.mul else ssum(it)
+        if init and not (isinstance(init[0], int) and init[0] == (1 if f is operator.mul else 0)):
+            return f(init[0], r)
+        return r
+    items = list(it)
+    if init:
+        acc = init[0]
+    elif items:
+        acc = items.pop(0)
+    else:
+        raise TypeError("reduce() of empty iterable with no initial value")
+    for x in items:
+        acc = interp.call(f, (acc, x), {})
+    return acc
 
 
 def b_callable(interp, x):
@@ -586,10 +639,25 @@ def format_percent(interp, fmt, args):
 
 
 def format_braces(interp, fmt, args, kwargs):
-    """str.format with plain '{}' fields only"""
-    if kwargs or "{" in fmt.replace("{}", "") or "}" in fmt.replace("{}", ""):
+    """str.format with plain '{}' fields (and the escapes '{{', '}}') only"""
+    if kwargs:
         return OpaqueStr("<formatted %r>" % fmt)
-    lits = fmt.split("{}")
+    lits, cur_lit, i = [], "", 0
+    while i < len(fmt):                       # the format mini-language, left to right: '{{' and '}}' are literal braces, '{}' is a field
+        c2 = fmt[i:i + 2]
+        if c2 == "{{" or c2 == "}}":
+            cur_lit += c2[0]
+            i += 2
+        elif c2 == "{}":
+            lits.append(cur_lit)
+            cur_lit = ""
+            i += 2
+        elif fmt[i] in "{}":
+            return OpaqueStr("<formatted %r>" % fmt)     # named / numbered / formatted fields: not modelled
+        else:
+            cur_lit += fmt[i]
+            i += 1
+    lits.append(cur_lit)
     if len(lits) - 1 != len(args):
         return OpaqueStr("<formatted %r>" % fmt)
     parts = [z3.StringVal(lits[0])]
@@ -601,8 +669,24 @@ def format_braces(interp, fmt, args, kwargs):
 
 
 class OpaqueStr(str):
-    """text whose content is not modelled (messages)"""
-    pass
+    """text whose content is not modelled (messages).  It may be passed around and raised; COMPARING it with another text would be a verdict about
+    content the engine does not have: outside the accepted subset."""
+
+    def __eq__(self, other):
+        if other is self:
+            return True
+        raise Unsupported("comparison of a text whose content is not modelled (%s)" % str.__str__(self)[:60])
+
+    def __ne__(self, other):
+        return not self.__eq__(other)
+
+    __hash__ = str.__hash__
+
+    def __add__(self, other):
+        return OpaqueStr(str.__add__(self, other))
+
+    def __radd__(self, other):
+        return OpaqueStr(str.__add__(other, self))
 
 
 # ----------------------------------------------------------------------------------
@@ -611,6 +695,14 @@ class OpaqueStr(str):
 def builtin_method(interp, slf, name, args, kwargs):
     if slf is None or isinstance(slf, type(math)):
         return NOT_HANDLED
+    import re as _re
+    if isinstance(slf, _re.Pattern) and (contains_sym(args) or contains_sym(kwargs)):
+        # a compiled pattern's method is the module function with the pattern in front: same model, same limits
+        f = getattr(_re, name, None)
+        stub = interp.stubs.get(id(f)) if f is not None else None
+        if stub is None:
+            raise Unsupported("re.Pattern.%s on a symbolic string" % name)
+        return stub(interp, slf.pattern, *args, **kwargs)
     if isinstance(slf, dict):
         if name == "get" and args and isinstance(args[0], Sym):
             key = args[0]
@@ -711,6 +803,10 @@ def install(interp):
     r(reversed, b_reversed)
     r(map, b_map)
     r(filter, b_filter)
+    r(next, b_next)
+    r(iter, b_iter)
+    import functools
+    r(functools.reduce, f_reduce)
     r(getattr, b_getattr)
     r(hasattr, b_hasattr)
     r(type, b_type)
@@ -759,11 +855,29 @@ def install(interp):
         r(np.asarray, np_asarray)
 
         def np_abs(interp, a, *rest, **kw):
-            if isinstance(a, Sym):
-                return abs(a)
+            from .qmodel import Quantity
+            if isinstance(a, (Sym, Quantity)):
+                return abs(a)             # np.abs of a scalar / of a quantity is its __abs__
             if contains_sym(a):
-                return np.array([abs(x) for x in a], dtype=object)
+                if isinstance(a, (list, tuple, np.ndarray)):
+                    return np.array([np_abs(interp, x) for x in a], dtype=object)
+                raise Unsupported("np.abs of %s" % type(a).__name__)
             return np.abs(a, *rest, **kw)
+
+        def np_attr(name, native):
+            def f(interp, a, *rest, **kw):
+                # np.ndim(x) / np.shape(x) / np.size(x) read x.ndim / x.shape / x.size where x has them (the unit abstraction does)
+                if contains_sym(a) and not isinstance(a, (list, tuple, np.ndarray)) and not rest and not kw:
+                    if isinstance(a, Sym):
+                        return {"ndim": 0, "shape": (), "size": 1}[name]
+                    try:
+                        return interp.getattr_(a, name)
+                    except AttributeError:
+                        raise Unsupported("np.%s of %s" % (name, type(a).__name__))
+                return native(a, *rest, **kw)
+            return f
+        for _nm in ("ndim", "shape", "size"):
+            r(getattr(np, _nm), np_attr(_nm, getattr(np, _nm)))
         r(np.abs, np_abs)
         r(np.absolute, np_abs)
 
@@ -801,6 +915,12 @@ def install(interp):
                 return np.nonzero(np.array(flat, dtype=bool).reshape(a.shape))
             return np.nonzero(a, *rest, **kw)
         r(np.nonzero, np_nonzero)
+
+        def np_flatnonzero(interp, a, *rest, **kw):
+            if isinstance(a, np.ndarray) and contains_sym(a):
+                return np_nonzero(interp, np.ravel(a))[0]
+            return np.flatnonzero(a, *rest, **kw)
+        r(np.flatnonzero, np_flatnonzero)
 
         def np_extremum(name, builtin_stub):
             def f(interp, a, *rest, **kw):
